@@ -30,10 +30,10 @@ PAIR_EXCEPTIONS = {
 
 def run(ctx):
     ix = ctx.index
-    rule_a(ctx, ix)
-    rule_b(ctx, ix)
-    rule_c(ctx, ix)
-    rule_d(ctx, ix)
+    ctx.guard(rule_a, ctx, ix)
+    ctx.guard(rule_b, ctx, ix)
+    ctx.guard(rule_c, ctx, ix)
+    ctx.guard(rule_d, ctx, ix)
 
 
 def rule_a(ctx, ix):
@@ -143,6 +143,20 @@ def rule_b(ctx, ix):
            detail='remove_subset_group does not delete() every subset of the group: datasets keep subsets of a removed group', where=g.where)
     ctx.ob(R, g.construct, 'the group is unregistered from the hub', len(unreg) == 1,
            detail='remove_subset_group does not unregister the group: a removed group keeps creating subsets for new datasets', where=g.where)
+    # ... on every path that removed it (also when the group has no members)
+    common.must_reach(ctx, R, g,
+                      lambda e: any(isinstance(c, ast.Call) and call_name(c) == 'remove' and '_subset_groups' in unparse(c.func) for c in ast.walk(e)),
+                      lambda e: any(isinstance(c, ast.Call) and call_name(c) == 'unregister' and unparse(c.func.value) == p for c in ast.walk(e)),
+                      'once the group left the collection it is unregistered on every path (also with zero members)',
+                      '%(func)s removes the group with `%(stmt)s` but can finish without unregistering it (e.g. when the group has no '
+                      'member subsets): the removed group keeps its hub subscription and gives every dataset added later a subset of '
+                      'a group that no longer exists')
+    f2 = dc.resolve_func('new_subset_group')
+    common.must_reach(ctx, R, f2,
+                      lambda e: any(isinstance(c, ast.Call) and call_name(c) == 'append' and '_subset_groups' in unparse(c.func) for c in ast.walk(e)),
+                      lambda e: any(isinstance(c, ast.Call) and call_name(c) == 'register' for c in ast.walk(e)),
+                      'a listed group is registered on every path',
+                      '%(func)s lists the new group with `%(stmt)s` but can finish without registering it')
     # loaders re-register every restored group
     for q in ('glue.core.state._load_data_collection_2', 'glue.core.state._load_data_collection_4'):
         lf = ix.func(q)
